@@ -3,15 +3,22 @@
   (EpsieModel/Checkpoint.lean).  Run with `lake env lean --run DriverCheckpoint.lean < case-file`.
 
   Protocol (one record per line, space separated; `-` is `path=None` resp. the empty byte string):
-    case <id>                              a new empty file (top level only)
+    case <id>                              a new process: every file handle is an empty file (top
+                                           level only); the current file is file 0
+    file <i>                               the following lines address file handle <i>
     group <path>                           h5py `require_group(path)` (set-up, not epsie code)
     foreign <path|-> <name> <hex|-> <max|none>
                                            a dataset put there by someone else: content, maxshape
-    dump <path|-> <name> <hex|->           dump_pickle_to_hdf with these pickle bytes
+    dump <path|-> <name> <hex|->           dump_pickle_to_hdf with a stream holding these bytes, at position 0
+    dumps <path|-> <name> <hex|-> <pos>    dump_pickle_to_hdf with a stream holding these bytes, positioned at
+                                           <pos> (0 .. beyond the end) when the call is made
+    sread <hex|-> <pos>                    (stream model only) `read()` of such a stream
+    swrite <hex|-> <pos> <hex|->           (stream model only) `write(bytes)` to such a stream
     load <path|-> <name>                   load_state up to pickle.load
-    ls                                     the whole file
+    ls                                     the whole current file
   Answers:
-    case <id> | ok group | ok foreign
+    case <id> | ok group | ok foreign | ok file
+    ok sread <hex|-> <pos after> | ok swrite <hex|-> <pos after>
     ok dump branch=<create|resize|keep>    which arm of `dump_pickle_to_hdf` ran
     ok load <hex|->
     raise <noGroup|noObject|notDataset|cannotResize|shapeMismatch|nameExists>
@@ -78,8 +85,13 @@ def showFile (f : File) : String :=
 /-! ## state and ops -/
 
 structure DState where
-  file : File := File.empty
+  world : World := fun _ => File.empty
+  cur : Nat := 0
   dead : Bool := false
+
+def DState.file (st : DState) : File := st.world st.cur
+
+def DState.setFile (st : DState) (f : File) : DState := { st with world := st.world.set st.cur f }
 
 /-- Which arm of `dump_pickle_to_hdf` the model takes (for comparison with the calls the real
     code made on the stand-in). -/
@@ -94,6 +106,18 @@ def branchOf (f : File) (path : Option Loc) (name : String) (b : Bytes) : String
 
 def validName (n : String) : Bool := n ≠ "" && !(n.toList.contains '/')
 
+/-- `dump_pickle_to_hdf(memfp, files[cur], path, dsetname)`, `memfp` = the bytes at the position. -/
+def doDump (st : DState) (line p n hx pos : String) : DState × List String :=
+  match fromHex hx, pos.toNat? with
+  | some b, some k =>
+    if !validName n then ({ st with dead := true }, [s!"bad-op {line}"]) else
+    let path := parsePath p
+    let br := branchOf st.file path n b
+    match st.world.dump st.cur path n ⟨b, k⟩ with
+    | (w', none) => ({ st with world := w' }, [s!"ok dump branch={br}"])
+    | (w', some e) => ({ st with world := w' }, [s!"raise {e.toString}"])
+  | _, _ => ({ st with dead := true }, [s!"bad-op {line}"])
+
 def handleLine (st : DState) (line : String) : DState × List String :=
   let toks := (line.trimAscii.toString.splitOn " ").filter (· ≠ "")
   match toks with
@@ -102,24 +126,32 @@ def handleLine (st : DState) (line : String) : DState × List String :=
   | _ =>
     if st.dead then (st, []) else
     match toks with
-    | ["group", p] => ({ st with file := st.file.requireGroup (parseLoc p) }, ["ok group"])
+    | ["file", i] =>
+      match i.toNat? with
+      | some n => ({ st with cur := n }, ["ok file"])
+      | none => ({ st with dead := true }, [s!"bad-op {line}"])
+    | ["group", p] => (st.setFile (st.file.requireGroup (parseLoc p)), ["ok group"])
     | ["foreign", p, n, hx, mx] =>
       match fromHex hx, (if mx = "none" then some none else mx.toNat?.map some) with
       | some b, some m =>
         if validName n then
-          ({ st with file := st.file.setDset ⟨resolve (parsePath p), n⟩ ⟨frombuffer b, m⟩ }, ["ok foreign"])
+          (st.setFile (st.file.setDset ⟨resolve (parsePath p), n⟩ ⟨frombuffer b, m⟩), ["ok foreign"])
         else ({ st with dead := true }, [s!"bad-op {line}"])
       | _, _ => ({ st with dead := true }, [s!"bad-op {line}"])
-    | ["dump", p, n, hx] =>
-      match fromHex hx with
-      | some b =>
-        if !validName n then ({ st with dead := true }, [s!"bad-op {line}"]) else
-        let path := parsePath p
-        let br := branchOf st.file path n b
-        match dumpPickleToHdf st.file path n b with
-        | (f', none) => ({ st with file := f' }, [s!"ok dump branch={br}"])
-        | (f', some e) => ({ st with file := f' }, [s!"raise {e.toString}"])
-      | none => ({ st with dead := true }, [s!"bad-op {line}"])
+    | ["dump", p, n, hx] => doDump st line p n hx "0"
+    | ["dumps", p, n, hx, pos] => doDump st line p n hx pos
+    | ["sread", hx, pos] =>
+      match fromHex hx, pos.toNat? with
+      | some b, some k =>
+        let r := (Stream.mk b k).read
+        (st, [s!"ok sread {toHex r.1} {r.2.pos}"])
+      | _, _ => ({ st with dead := true }, [s!"bad-op {line}"])
+    | ["swrite", hx, pos, hx2] =>
+      match fromHex hx, pos.toNat?, fromHex hx2 with
+      | some b, some k, some b2 =>
+        let r := (Stream.mk b k).write b2
+        (st, [s!"ok swrite {toHex r.data} {r.pos}"])
+      | _, _, _ => ({ st with dead := true }, [s!"bad-op {line}"])
     | ["load", p, n] =>
       if !validName n then ({ st with dead := true }, [s!"bad-op {line}"]) else
       match loadBytes st.file (parsePath p) n with
